@@ -12,6 +12,15 @@ static CoreT_& coreOf(FSM::Instance& i) { return static_cast<RootT&>(i).*get(Cor
 //------------------------------------------------------------------------------
 
 static bool loggerOf(FSM::Instance& i);
+static void statusCodes(std::string& o, void* instance) {
+#ifdef HFSM2_ENABLE_PLANS
+	auto& pd = coreOf(*static_cast<FSM::Instance*>(instance)).planData;
+	o += '['; jarr(o, RC, [&](int r) { jint(o, (int) pd.headStatuses[r].result + (pd.headStatuses[r].outerTransition ? 3 : 0)); });
+	o += ','; jarr(o, RC, [&](int r) { jint(o, (int) pd. subStatuses[r].result + (pd. subStatuses[r].outerTransition ? 3 : 0)); }); o += ']';
+#else
+	o += '['; jarr(o, RC, [&](int) { jint(o, 0); }); o += ','; jarr(o, RC, [&](int) { jint(o, 0); }); o += ']';
+#endif
+}
 static int prong1(hfsm2::Prong p) { return p == hfsm2::INVALID_PRONG ? 0 : p + 1; }
 
 template <int OC> struct OrthoDump {
